@@ -91,7 +91,7 @@ def parse_out(rep):
 class Pools:
     """Per dtype: K distinct, well separated items of every ltype plus point pools; built from a fixed seed
     with the real `Exp` (valid group elements)."""
-    K = 29
+    K = 13
 
     def __init__(self, seed=12345):
         self.cache = {}
